@@ -8,7 +8,7 @@ def norm_sub(sg, L, M):
     return tuple(sg)
 
 
-def roms_grid(W, L, M, N=2, sub=None, sym_mask=True, sym_h=False, pm=None):
+def roms_grid(W, L, M, N=2, sub=None, sym_mask=True, sym_h=False, pm=None, pn=None):
     roms = W.load("ladim.ROMS")
     tmp = W.scratch()
     if sym_mask:
@@ -17,7 +17,8 @@ def roms_grid(W, L, M, N=2, sub=None, sym_mask=True, sym_h=False, pm=None):
         mask = [[1] * L for _ in range(M)]
     h = [[(W.real(f"h_{j}_{i}", 1, 5000) if sym_h else 100) for i in range(L)] for j in range(M)]
     pmv = pm if pm is not None else W.frac(1, 800)
-    gs = romsfile.grid_vars(L, M, N, h=h, mask=mask, pm=[[pmv] * L for _ in range(M)], pn=[[pmv] * L for _ in range(M)])
+    pnv = pn if pn is not None else W.frac(1, 1600)  # anisotropic by default: dx = 800 m, dy = 1600 m
+    gs = romsfile.grid_vars(L, M, N, h=h, mask=mask, pm=[[pmv] * L for _ in range(M)], pn=[[pnv] * L for _ in range(M)])
     romsfile.write(W, tmp / "grid.nc", gs)
     grid = roms.Grid(filename=str(tmp / "grid.nc"), subgrid=sub)
     return grid, mask, h
